@@ -179,3 +179,29 @@ Proof. split; [vm_compute; reflexivity|]. split; vm_compute; reflexivity. Qed.
 
 Lemma ox_image_ok_rw : image_ok jcrc jp rp kp (ox_opts false) ox_img 0 ox_mrecs 1 (olist None ++ [ox_jl]).
 Proof. exact ox_image_ok. Qed.
+
+(* the side condition of the totality theorem (Store/OpenTotalProofs.v) holds of the example image: two file names,
+   listed once each; the manifest leaves journal number 1, next file number 2 and no table *)
+From GL Require Import Store.OpenTotalProofs.
+Lemma ox_image_tabs_ok : image_tabs_ok rp (ox_opts false) ox_img ox_mrecs 1.
+Proof.
+  split.
+  { cbn [ox_img si_files map fst]. constructor; [intros [E|[]]; discriminate|]. constructor; [intros []|constructor]. }
+  intros k j pj nf q live cps Hk.
+  assert (E : firstn k (map fst ox_mrecs) = [ox_rec0]) by (destruct k as [|[|k]]; [lia|reflexivity|reflexivity]).
+  rewrite E. vm_compute. intros H. injection H as <- _ <- _ <- _.
+  split; [discriminate|]. split; [discriminate|constructor].
+Qed.
+
+Lemma ox_rw_total :
+  image_tabs_ok rp (ox_opts false) ox_img ox_mrecs 1 /\ manifest_ok rp (ox_opts false) ox_mrecs 1 /\
+  jnums_ok None ox_jl /\
+  exists r, ox_open (ox_opts false) [] ox_img = OOk r.
+Proof.
+  split; [exact ox_image_tabs_ok|]. split; [exact ox_manifest_ok|].
+  assert (Hn : jnums_ok None ox_jl) by (split; [apply N.leb_le; reflexivity|exact I]).
+  split; [exact Hn|].
+  exact (open_rw_total_pinv jcrc jp jp_ok rp rp_ok kp kp_ok ox_seek_val mp mp_ok tblp tbl_crc (fun x => x) false None
+           4096 16 bytewise bytewise_ok (ox_opts false) [] ox_img 0 ox_mrecs 1%nat None ox_jl
+           eq_refl eq_refl eq_refl eq_refl (Forall_nil _) ox_image_ok_rw ox_manifest_ok Hn ox_image_tabs_ok).
+Qed.
